@@ -241,5 +241,6 @@ def verdict_returns(body, variant):
                     continue
                 for d in ba.defs.get(l, []):
                     if d[0] == "stmt" and d[3]["k"] == "agg" and d[3].get("adt") == "deps::Dirtiness" and d[3]["variant"] == variant:
-                        out.append(i)
+                        # the block where this verdict is chosen (the `_0 = Ok(..)` may sit in a join block)
+                        out.append(d[1])
     return sorted(set(out))
